@@ -47,6 +47,8 @@ def corpus():
         ('post-conflict-after-create', base, ('alloc_post', 39, [cons(3, None, [(1, [(0, 1)])]), cons(2, 7, [(1, [(0, 1)])])])),
         ('alloc-delete', base, ('alloc_delete', 2)),
         ('reshape', base, ('reshape', 39, [(2, 2, [inv(0, 8), inv(1, 32)])], [cons(2, 1, [(2, [(0, 1), (1, 4)])]), cons(3, None, [(1, [(0, 1)])])])),
+        ('reshape-no-allocations-two-providers', base, ('reshape', 39, [(1, 3, [inv(0, 8)]), (3, 0, [inv(2, 100), inv(1, 64)])], [])),
+        ('reshape-no-allocations-one-provider', base, ('reshape', 39, [(3, 0, [inv(0, 4)])], [])),
         ('reshape-drop-in-use', base, ('reshape', 39, [(1, 3, [inv(2, 100)])], [cons(3, None, [(1, [(0, 1)])])])),
         ('rc-create', base, ('rc_create', 39, 1001)),
         ('rc-delete', base, ('rc_delete', 39, 1000)),
@@ -130,23 +132,28 @@ FAULTS = {
 }
 
 
-def fault_points(setup, op, kind, rollback_first=False):
-    """Yield (description, k, response, obs, before, after, final dump, normal obs, statements executed)."""
+def fault_points(setup, op, kind, rollback_first=False, only=None):
+    """Yield dict(desc, k, res, obs, before, after, final, normal_obs, stmts, stmt) for one fault of `kind`
+    injected at statement k (every k, or those in `only`)."""
     n, ntx, obs, final, stmts = statement_count(setup, op)
     for k in range(n):
+        if only is not None and k not in only:
+            continue
         fired = []
 
         def on_stmt(i, st, params, k=k, fired=fired):
             if i == k and not fired:
                 fired.append(st)
                 if rollback_first:
-                    # the database has already rolled the transaction back (MySQL deadlock victim)
+                    # the database has already rolled the transaction back (e.g. MySQL deadlock victim)
+                    raw = impl.init()['engine'].raw_connection()
                     try:
-                        eng = impl.init()['engine']
-                        pool_conn = eng.pool._creator if False else None
-                    except Exception:
-                        pool_conn = None
+                        raw.rollback()
+                    finally:
+                        raw.close()
                 raise FAULTS[kind]()
         res, o, before, after, executed, txns = run_with(setup, op, on_stmt=on_stmt)
-        yield ('%s at statement %d/%d (%s)' % (kind, k, n, stmts[k][:50] if k < len(stmts) else ''),
-               k, res, o, before, after, final, obs, executed)
+        yield {'desc': '%s%s at statement %d/%d (%s)' % (kind, '+rollback' if rollback_first else '', k, n,
+                                                         ' '.join(stmts[k].split())[:60] if k < len(stmts) else ''),
+               'k': k, 'res': res, 'obs': o, 'before': before, 'after': after, 'final': final, 'normal_obs': obs,
+               'stmts': stmts, 'stmt': stmts[k] if k < len(stmts) else '', 'executed': len(executed)}
